@@ -343,6 +343,11 @@ def collect_r(ctx, results, props, stage_name, count_key="cases", nontrivial_key
             ctx.inconclusive.append(f"{stage_name} shard {r['shard']}: {r['inconclusive']} (a lexer that does not terminate cannot be told from a slow machine: no verdict)")
             ctx.fatal_inconclusive = True
             continue
+        if r.get("crashed") and r.get("signal") in (15, 9, 2, 1):
+            # stopped from outside (operator, out-of-memory killer, another job's clean-up): no verdict
+            ctx.inconclusive.append(f"{stage_name} shard {r['shard']}: ended by signal {r['signal']} from outside (no verdict)")
+            ctx.fatal_inconclusive = True
+            continue
         if r.get("crashed"):
             # a shard killed by a signal (stack overflow, abort) is a finding about the lexer, reported as such
             ctx.add_violation({"property": ctx.prop, "level": "R", "rule": "shard-crashed", "stage": stage_name,
@@ -487,7 +492,10 @@ def run_apidrv(ctx, exe, subs, tag, small=False, count=2000, timeout=1800, env_e
         ctx.add_violation({"property": ctx.prop, "level": "R", "rule": "sanitizer-report", "stage": stage, "config": tag,
                            "detail": f"{blocks} sanitizer report(s); first lines: " + "\n".join([l for l in out.splitlines() if "ERROR" in l or "Undefined Behavior" in l or "error:" in l][:6]), "output_tail": out[-3000:]})
     elif not res["done"]:
-        if rc < 0 or rc in (134, 139):
+        # a process ended by SIGTERM / SIGKILL / SIGINT / SIGHUP was stopped from outside (operator, out-of-memory killer,
+        # another job's clean-up): that says nothing about logos and is inconclusive; only faults raised by the program
+        # itself (SIGSEGV, SIGBUS, SIGABRT, SIGILL, SIGFPE) are findings
+        if rc in (-11, -7, -6, -4, -8, 134, 139):
             ctx.add_violation({"property": ctx.prop, "level": "R", "rule": "process-died", "stage": stage, "config": tag,
                                "detail": f"apidrv died rc={rc} (signal) while running {subs}", "output_tail": out[-2000:]})
         else:
